@@ -3446,13 +3446,19 @@ impl RaftNode {
         if let Some(ref wal) = self.wal {
             let (truncate_from, old_last) = {
                 let persistent = self.persistent.read();
+                // Entries at or below `log_base_index` were compacted out of
+                // memory: they are committed, snapshot-covered and still in the
+                // WAL, so they cannot differ and must not be cut off (a crash
+                // after the truncate record would lose them).
+                let base = persistent.log_base_index;
                 let first_diff = entries
                     .iter()
                     .find(|e| {
-                        persistent
-                            .log_index_to_array_index(e.index)
-                            .and_then(|i| persistent.log.get(i))
-                            .map_or(true, |old| old.term != e.term)
+                        e.index > base
+                            && persistent
+                                .log_index_to_array_index(e.index)
+                                .and_then(|i| persistent.log.get(i))
+                                .map_or(true, |old| old.term != e.term)
                     })
                     .map(|e| e.index);
                 let snapshot_last = entries.last().map_or(0, |e| e.index);
